@@ -68,6 +68,8 @@ InitFails(H) ==
   \cup (IF <<a.attesters, a.threshold>> # <<b.attesters, b.threshold>> THEN {"C01", "C13"} ELSE {})
   \cup (IF Roles(a) # Roles(b) THEN {"C11"} ELSE {})
   \cup (IF a.used # b.used THEN {"C02"} ELSE {})
+  \cup (IF <<a.pausedBM, a.pausedSR>> # <<b.pausedBM, b.pausedSR>> THEN {"C12"} ELSE {})
+  \cup (IF a.nextNonce # b.nextNonce THEN {"C07"} ELSE {})
   \cup (IF H.junk0 # <<>> THEN {"C15"} ELSE {})
 
 \* evaluated once per generated step
